@@ -33,7 +33,7 @@ RULE = ("Each run: flavour (text|binary), then up to 40 operations on one file o
         "(deserialize(serialize()), write/read through a medium, sub-tree restart). Cell values come from an awkward-string pool. "
         "Non-trivial: >= 3 operations with at least one mutation and one restart or deep check; distinct = distinct (cfg, ops) hashes.")
 ASSUMPTIONS = [
-    "names of blocks/categories/columns are identifier-like (no '.', no leading underscore, no blank)",
+    "names of blocks/categories/columns contain no '.', no blank and no leading underscore (identifier-like names plus hyphens, brackets, slashes, leading digits)",
     "a *present* cell equal to '.' or '?' is not generated (the text flavour expresses mask states with them)",
     "cell strings are printable characters plus blank, tab and line feed; a value containing a line break directly followed by ';' is excluded (CIF 1.1 text fields cannot express it)",
 ]
@@ -41,8 +41,9 @@ PROBES = ["lazy-element-serialised-unparsed", "restart-with-mixed-parsed-sibling
           "single-row-awkward", "multiline-value", "rejected-op", "restart-refused-invalid-store", "eq-negative"]
 
 BLOCKS = ["b1", "1ABC", "blk_x", "B-2"]
-CATS = ["atom_site", "cat", "entry", "x_y"]
-COLS = ["id", "val", "c3", "label_x", "e"]
+# mmCIF data names: identifier-like, but also hyphens, brackets, slashes (e.g. atom_site.aniso_B[1][1]); never a dot or a blank
+CATS = ["atom_site", "cat", "entry", "x_y", "my-cat", "tab[1]", "9lives"]
+COLS = ["id", "val", "c3", "label_x", "e", "aniso_B[1][1]", "pdbx-x", "a/b%"]
 
 AWKWARD = [
     "a b", " a", "a ", "a\tb", "\tq", "it's", 'say "hi"', "'", '"', "''", '""', "'a'", '"a"', "'a", "a'", 'a"', "a' b", 'a" b',
